@@ -254,6 +254,8 @@ def find_impl(prog):
         for n in pub.own_nodes():
             if isinstance(n, ast.Call):
                 t = prog.resolve_callable(pub, m, n.func)
+                while isinstance(t, Partial):
+                    t = t.target          # the implementation pre-bound to a mode at module level (functools.partial)
                 if isinstance(t, Func) and prog.same_unit(m, t.module) and any(sites_in(prog, g) for g in impl_parts(prog, t)):
                     found = t
         if found is None:
